@@ -180,6 +180,8 @@ def check(ctx, case):
 		d, kspec, bases, taxa = build(rng, sc, awkward=case.get('awkward', True), bare_cr=case.get('bare_cr', False), zeros=case.get('zeros', False))
 		if case.get('two_gsets'):
 			return _check_two_gsets(ctx, case, rng, d, kspec, bases)
+		if case.get('cli_sigfile'):
+			return _check_cli_sigfile(ctx, case, rng, sc, d, kspec, bases)
 		db = ReferenceDatabase.load_from_dir(d)
 		try:
 			nq = rng.randint(1, 5)
@@ -329,6 +331,54 @@ def check(ctx, case):
 		sc.cleanup()
 
 
+def _check_cli_sigfile(ctx, case, rng, sc, d, kspec, bases):
+	"""`gambit query -s FILE -f archive`: the results object the command exports (captured by standing in for the exporter the command
+	picks — nothing in /repo is touched) against what the real reader reconstructs from the file the real writer wrote; query labels are the
+	IDs of the signature file, which may be strings or integers"""
+	import numpy as np
+	from unittest import mock
+	from cliutil import run_cli
+	from gambit.db import ReferenceDatabase
+	from gambit.results import ResultsArchiveWriter, ResultsArchiveReader
+	from gambit.sigs import SignatureList, AnnotatedSignatures, SignaturesMeta, dump_signatures
+	from gambit.sigs.calc import calc_signature
+	nq = rng.randint(1, 4)
+	sigs = [calc_signature(kspec, dbutil.mutate(rng, rng.choice(bases), rng.choice([0.0, 0.02, 0.1]))) for _ in range(nq)]
+	ids = {'int': [int(x) for x in rng.sample(range(1, 10 ** 6), nq)], 'str': [f'{rng.choice(AWK)} s{i}' for i in range(nq)],
+	       'digits': [str(x) for x in rng.sample(range(1, 10 ** 6), nq)]}[case['ids']]
+	sf = sc.path('queries.gs')
+	dump_signatures(sf, AnnotatedSignatures(SignatureList(sigs, kspec), np.asarray(ids), SignaturesMeta(id='queries')))
+	out = sc.path('res.json')
+	captured = {}
+
+	class Capture(ResultsArchiveWriter):
+		def export(self, file_or_path, results):
+			captured['results'] = results
+			return super().export(file_or_path, results)
+	with mock.patch('gambit.cli.query.get_exporter', lambda fmt: Capture()):
+		code, so, se, exc = run_cli(['-d', d, 'query', '-s', sf, '-f', 'archive', '-o', out, '--no-progress'])
+	if code != 0 or 'results' not in captured:
+		return [], [f'gambit query -s failed: exit {code} {exc!r} {se[-200:]}']
+	res = captured['results']
+	db = ReferenceDatabase.load_from_dir(d)
+	try:
+		try:
+			back = ResultsArchiveReader(db.session).read(out)
+		except Exception as e:
+			return [], [f'archive written by `gambit query -s` cannot be read back: {exc_kind(e)}: {str(e)[:200]}']
+		pf = []
+		lab = lambda r: [repr(it.input.label if isinstance(it.input.label, str) else int(it.input.label)) for it in r.items]
+		if lab(back) != lab(res):
+			pf.append(f'labels of the results exported by `gambit query -s` {lab(res)} are read back from the archive as {lab(back)} (signature-file IDs of kind {case["ids"]})')
+		dist = lambda r: [[bits(m.distance) for m in it.closest_genomes] for it in r.items]
+		if dist(back) != dist(res):
+			pf.append('distances of the archive read back differ')
+		case['_nt'] = True
+		return [], pf
+	finally:
+		db.signatures.close(); db.session.close()
+
+
 def _check_two_gsets(ctx, case, rng, d, kspec, bases):
 	"""one ResultsArchiveReader, archives from two genome sets that share their key: each must read back equal to its original"""
 	from sqlalchemy import create_engine
@@ -368,6 +418,10 @@ def _check_two_gsets(ctx, case, rng, d, kspec, bases):
 
 
 def finding_key(failure):
+	# C11-F3: integer signature-file IDs become integer labels, which the archive turns into strings
+	if failure['case'].get('cli_sigfile') and failure['case'].get('ids') == 'int' and any('are read back from the archive as' in x for x in failure.get('pyfails', [])) \
+			and not failure.get('bad') and len(failure.get('pyfails', [])) == 1:
+		return 'C11-F3'
 	# C11-F1: a field with a CR not followed by LF and no other character that forces quoting
 	if not failure['case'].get('bare_cr'):
 		return None
@@ -389,6 +443,9 @@ def run(ctx):
 	for j in range(ctx.q(6, 40)):
 		# present-but-falsy values (distance 0.0, threshold 0.0, NCBI id 0, empty description): early, so that a loaded machine still reaches them
 		sub({'seed': rng.randrange(10 ** 9), 'zeros': True, 'strict': j % 3 == 2, 'awkward': j % 2 == 0, 'chunksize': 1000, 'to_path': None}, 'falsy-values')
+	for j in range(ctx.q(6, 45)):
+		# the results `gambit query -s FILE` exports, through the archive and back: labels are the file's IDs (strings, digit strings, integers)
+		sub({'seed': rng.randrange(10 ** 9), 'cli_sigfile': True, 'ids': ['int', 'str', 'digits'][j % 3], 'awkward': j % 2 == 0}, 'cli-sigfile-archive')
 	for j in range(ctx.q(6, 60)):
 		sub({'seed': rng.randrange(10 ** 9), 'two_gsets': True, 'reverse': j % 2 == 1, 'awkward': False}, 'two-genomesets-one-reader')
 	for j in range(ctx.q(140, 1200)):
